@@ -24,6 +24,7 @@
       every lookup that is not a plain pass is covered by a guard — an unrelated failure
       in the same case is never excused by a finding. *)
 From HV Require Export Base.Prelude Radix.Spec Radix.Machine Radix.Load Radix.Tree C02.Model.
+From HV Require Import C06.TreeDel C02.HistTree.
 
 Definition s2l : string -> str := list_ascii_of_string.
 
@@ -215,18 +216,28 @@ Definition check_repo (impl_fixed : bool) (c : rcase) : verdict :=
   combine (sets_same && tsets_same && shape_same) (map (check_rlk impl_fixed (rc_default c) sd t (tsets_same && shape_same) tbl) (rc_lks c)).
 
 (** ** stream "history": create / update / delete of rule sets through the real rule-set
-    processor, then lookups.  Correspondence: the history model of C02/Model.v (the code as it
-    is).  Property: the specification on a FRESH load of the rule sets in force. *)
+    processor, then lookups.  Correspondence: the history model of C02/Model.v (pattern-map
+    machine, the code as it is) AND the compressed tree after the same history
+    (C02/HistTree.v [hist_tree]: Radix/Tree.v's Add and C06/TreeDel.v's Delete / delNode /
+    deleteChild as the repository issues them) — the tree takes part when it followed the
+    implementation through every accepted operation ([ts_ok]), satisfies [wfd] and holds the
+    machine model's content ([hist_tree_in]; otherwise the inert indicator 9 is raised).
+    Property: the specification on a FRESH load of the rule sets in force. *)
 
 Record hcase := { hc_default : bool; hc_ops : list hop; hc_lks : list rlk }.
 
 Definition final_flags (ops : list hop) : list (nat * bool) :=
   flat_map (fun x => map (fun r => (r_id r, r_bt r)) (snd x)) (final_sets ops).
 
-Definition check_hlk (dflt : bool) (hd fd : db rval) (tbl : list (nat * bool)) (l : rlk) : lv :=
+Definition hist_tree_in (ops : list hop) : bool :=
+  let ts := hist_tree ops in
+  ts_ok ts && wfd (ts_tree ts) && db_equiv (proj_db (abs (ts_tree ts))) (hist_db ops).
+
+Definition check_hlk (dflt : bool) (hd fd : db rval) (t : tree uval) (tree_in : bool) (tbl : list (nat * bool)) (l : rlk) : lv :=
   let path := s2l (rl_path l) in
   let m := m_cap (rl_ok l) (rl_modes l) (s2l (rl_needle l)) in
-  {| lv_corr := outcome_eqb (find_rule false hd dflt path m) (rl_obs l);
+  {| lv_corr := outcome_eqb (find_rule false hd dflt path m) (rl_obs l)
+                && (negb tree_in || outcome_eqb (utree_find_rule t dflt path m) (rl_obs l));
      lv_prop := outcome_eqb (spec_find_rule (respec (vflag_of tbl) fd) dflt path m) (rl_obs l);
      lv_g1 := false;
      lv_g2 := guard_F2 (vflag_of tbl) hd path m;
@@ -235,7 +246,8 @@ Definition check_hlk (dflt : bool) (hd fd : db rval) (tbl : list (nat * bool)) (
 Definition check_hist (c : hcase) : verdict :=
   let hd := hist_db (hc_ops c) in
   let fd := fresh_db (hc_ops c) in
-  combine true (map (check_hlk (hc_default c) hd fd (final_flags (hc_ops c))) (hc_lks c)).
+  let tree_in := hist_tree_in (hc_ops c) in
+  combine tree_in (map (check_hlk (hc_default c) hd fd (ts_tree (hist_tree (hc_ops c))) tree_in (final_flags (hc_ops c))) (hc_lks c)).
 
 (** ** short constructors for the generated case files *)
 Definition ad e i s b o := {| a_expr := e; a_id := i; a_src := s; a_bt := b; a_obs := o |}.
